@@ -187,6 +187,11 @@ inductive Act where
   | compound (k : Name) (op : COp) (r : Rhs)
   /-- `for zi in 0..n` / `  k op= r`: a compound assignment in a top-level loop -/
   | loopCompound (n : Nat) (k : Name) (op : COp) (r : Rhs)
+  /-- `export k = i` executed for i = 1 … last inside a callback of a core function (iterator adaptors,
+  which run the callback in a spawned VM that shares the exports map; consumers, which call it on the
+  calling VM) or inside a generator body: the callback's `k` is its own local, the exports entry is
+  written every time -/
+  | cbExport (last : Nat) (k : Name)
   /-- an assignment `k = v` nested in a conditional: form 0 `if true`, form 1 `if false` (not executed),
   form 2 (and above) `match 1` / `1 then` -/
   | condAssign (form : Nat) (k : Name) (v : Int)
@@ -268,6 +273,9 @@ structure Cfg where
   /-- what `Path::with_extension("koto")` keeps of a module name: a dotted suffix is dropped
   (`'utils.v2'` → `utils`, finding F-C18-4); identity for undotted names and after the repair -/
   stem : Name → Name := id
+  /-- non-local lookups consult the module's own exports before its wildcard imports (repair of finding
+  F-C18-7); as it is, wildcard imports come first and shadow the module's own `export` -/
+  exportsFirst : Bool := false
 
 /-- execution frame: where imports resolve, locals, wildcard imports, and whether top-level
 assignments are exported (`export_top_level_ids`, host script top level only) -/
@@ -329,7 +337,10 @@ def modExports (fr : Frame) (st : St) : Exports :=
 
 /-- wildcard imports, then the module's exports, then the prelude -/
 def nonLocal (cfg : Cfg) (fr : Frame) (st : St) (k : Name) : Option V :=
-  ((wildGet st.cache k fr.wild).orElse fun _ => lookup k (modExports fr st).data).orElse fun _ => cfg.prelude k
+  if cfg.exportsFirst then
+    ((lookup k (modExports fr st).data).orElse fun _ => wildGet st.cache k fr.wild).orElse fun _ => cfg.prelude k
+  else
+    ((wildGet st.cache k fr.wild).orElse fun _ => lookup k (modExports fr st).data).orElse fun _ => cfg.prelude k
 
 /-- `compile_load_id`: a local if one is assigned, otherwise a non-local lookup at run time -/
 def readId (cfg : Cfg) (fr : Frame) (st : St) (k : Name) : Option V :=
@@ -593,6 +604,7 @@ def execAct (cfg : Cfg) (fs : FS) (rec : Runner) (a : Act) (fr : Frame) (st : St
     match compoundLoop cfg k op r n fr st with
     | (some e, fr1, st1) => some (some e, fr1, st1)
     | (none, fr1, st1) => some (none, bind loopVar .null fr1, exportIf fr1.exportTop loopVar .null st1)
+  | .cbExport last k => some (none, fr, if last = 0 then st else setData k (.int last) st)
   | .condAssign form k v =>
     if form = 1 then
       -- not executed, but `k` is a local of the frame from here on (a register that holds null
